@@ -191,13 +191,21 @@ JsonToksDenote(toks, m) ==
     /\ \A i \in 1..Len(toks) : JsonTokOK(toks[i])
     /\ Combine([i \in 1..Len(toks) |-> TokUnit(toks[i])], 1) = m
 
-(* --- zygomys reader: inside "..." every character stands for itself except
-       " and \ ; escapes \n \r \a \t \\ \" \' \# (EscapeChar) --- *)
-ZyEscLetters == {110, 114, 97, 116, 92, 34, 39, 35}
+(* --- zygomys reader (zygo/lexer.go EscapeChar, startHexEscape): inside "..." and '...'
+       every character stands for itself except the closing quote and \ ; escapes
+       \n \r \a \t \b \f \v \\ \" \' \# ; \xHH -- in a string the byte HH (as in Go), in a
+       character literal the rune U+00HH; \uHHHH and \UHHHHHHHH: the Unicode scalar value
+       written (a surrogate or a value above U+10FFFF is no rune: nothing is stated) --- *)
+ZyEscLetters == {110, 114, 97, 116, 98, 102, 118, 92, 34, 39, 35}
+IsScalar(x) == x >= 0 /\ x <= 1114111 /\ ~(x >= 55296 /\ x <= 57343)
 ZyTokOK(t, ctx) ==
     CASE t[1] = "raw" -> t[2] # 92 /\ (IF ctx = "str" THEN t[2] # 34 ELSE t[2] # 39)
       [] t[1] = "esc" -> t[2] \in ZyEscLetters
+      [] t[1] = "x2"  -> TRUE
+      [] t[1] \in {"u4", "U8"} -> IsScalar(t[2])
       [] OTHER -> FALSE
+(* the token denotes a rune by itself (\x80..\xff in a string is one byte of a UTF-8 sequence) *)
+ZyTokJudged(t, ctx) == ZyTokOK(t, ctx) /\ ~(t[1] = "x2" /\ ctx = "str" /\ t[2] >= 128)
 ZyToksDenote(toks, m, ctx) ==
     /\ \A i \in 1..Len(toks) : ZyTokOK(toks[i], ctx)
     /\ [i \in 1..Len(toks) |-> TokUnit(toks[i])] = m
@@ -245,8 +253,16 @@ HasNil(v) == Exists(v, LAMBDA x : x[1] = "nil")
 (*        -> the text is malformed                                    *)
 (*   unjson-rejects-2p63-to-2p64     an integer-looking number text   *)
 (*        with 2^63 <= magnitude < 2^64 is refused by the decoder     *)
+(*   reserved-member-name-as-key     a key named Atype or zKeyOrder   *)
+(*        is written next to the reserved member of that name: the    *)
+(*        text has a duplicate member and denotes other data          *)
+(*   nonfinite-float-not-encodable   +Inf, -Inf, NaN are written as   *)
+(*        these words: not JSON, and msgpack goes through that text   *)
 (* ------------------------------------------------------------------ *)
 HasUint(v) == Exists(v, LAMBDA x : x[1] = "uint")
+(* a key (symbol or string) named like one of the reserved members *)
+HasReservedKey(v) == Exists(v, LAMBDA x : x[1] = "hash" /\ \E i \in 1..Len(x[3]) : KeyName(x[3][i][1]) \in Reserved)
+HasNonFinite(v) == Exists(v, LAMBDA x : x[1] = "flt" /\ x[2] # "fin")
 HasStrKey(v) == Exists(v, LAMBDA x : x[1] = "hash" /\ \E i \in 1..Len(x[3]) : x[3][i][1][1] = "str")
 HasBadEscape(cc, v) == Exists(v, LAMBDA x : x[1] = "str" /\ StrHas(cc, x[2], JsonBadClass))
 InUintGap(n) == MagAtLeast(n, Int63p) /\ ~MagAtLeast(n, UInt64p)
@@ -312,6 +328,20 @@ HasUnreadableEscape(cc, v) ==      \* (a string key counts once keys are printed
 HasHugePlainFloat(v) == Exists(v, LAMBDA x : PlainFloat(x) /\ ~FitsInt64(NumVal(x)))
 HasPlainFloat(v) == Exists(v, LAMBDA x : PlainFloat(x))
 HasWideChar(v) == Exists(v, LAMBDA x : x[1] = "chr" /\ x[2] >= 128)
+(* a symbol key is printed bare, as  name:  -- that text reads back as the key only when the name
+   is one the lexer's symbol pattern (SymbolRegex) admits: an optional sigil # or ?, then no
+   digit first and none of the delimiters, operators, quotes, white space or the dot of a path
+   anywhere; the words of other literals are not symbols either *)
+KeyRestBad == {39, 35, 58, 59, 92, 126, 64, 91, 93, 123, 125, 94, 124, 34, 40, 41, 37, 44, 38, 42, 45, 43,
+               60, 62, 61, 33, 47, 46, 96, 63, 127} \cup (0..32)
+KeyFirstBad == (KeyRestBad \ {35, 63}) \cup (48..57)
+KeyWords == { <<116, 114, 117, 101>>, <<102, 97, 108, 115, 101>>, <<78, 97, 78>>, <<110, 97, 110>>,
+              <<73, 110, 102>>, <<105, 110, 102>> }      \* true false NaN nan Inf inf
+BadSymKey(n) == \/ n = <<>> \/ n \in KeyWords
+                \/ n[1] \in KeyFirstBad
+                \/ \E i \in 2..Len(n) : n[i] \in KeyRestBad
+HasBadSymKey(v) ==
+    Exists(v, LAMBDA x : x[1] = "hash" /\ \E i \in 1..Len(x[3]) : x[3][i][1][1] = "sym" /\ BadSymKey(x[3][i][1][2]))
 NeedsEscape(k) == k \in {"dquote", "backslash"}
 HasRawKey(cc, v) ==
     Exists(v, LAMBDA x : x[1] = "hash" /\ \E i \in 1..Len(x[3]) :
